@@ -69,14 +69,16 @@ PROPS["C15"] = P(
 PARSER_STUBS = ["std::vec::Vec::push", "<[unic_langid_impl::subtags::Variant]>::sort_unstable", "std::vec::Vec::into_boxed_slice"]
 # loops of the repo's own parser and of std iterator adaptors: one iteration per token (+1 to leave)
 def tok_uw(k):
-    return {r"parse_language_identifier_from_iter": k + 2, r"array::|from_fn|try_from_fn|iter_next_unchecked|drain_array": k + 2,
-            r"stubs::(sort_unstable|push|to_vec)": 6, r"dedup": 6, r"h::": 6}
+    return {r"parse_language_identifier_from_iter": k + 2, r"array::|from_fn|try_from_fn|iter_next_unchecked|drain_array|Copied|slice::Iter<": k + 2,
+            r"stubs::(sort_unstable|push|to_vec)": 6, r"dedup": k + 2, r"h::": 6}
 
 PROPS["C02"] = P(
     jobs=[
         J("c02_tokens_1", unwind=6, uw=tok_uw(1), stubs=PARSER_STUBS, desc="LanguageIdentifier::try_from_iter(.., false) on 1 x T9 vs reference recogniser/canonicaliser"),
         J("c02_tokens_2", unwind=6, uw=tok_uw(2), stubs=PARSER_STUBS, desc="2 x T9", weight=2),
         J("c02_tokens_3", unwind=6, uw=tok_uw(3), stubs=PARSER_STUBS, desc="3 x T9", weight=3),
+        J("c02_bytes_3", unwind=7, uw=dict(tok_uw(4), **{r"Split|position|split_ref|c02::": 6}), stubs=PARSER_STUBS, desc="LanguageIdentifier::from_bytes on every byte string of length <= 3 vs reference split + recogniser", weight=3),
+        J("c02_bytes_4", tier="t", unwind=8, uw=dict(tok_uw(5), **{r"Split|position|split_ref|c02::": 7}), stubs=PARSER_STUBS, desc="every byte string of length <= 4", weight=4, mem_gb=16),
         J("c02_tokens_4", tier="t", unwind=6, uw=tok_uw(4), stubs=PARSER_STUBS, desc="4 x T9", weight=4, mem_gb=12),
     ],
     bounds="token level: 1..3 (quick) / 1..4 (thorough) subtags, each " + T9,
@@ -177,6 +179,7 @@ PROPS["C07"] = P(
     jobs=[
         J("c07_laws_und", unwind=6, uw=LK_UW, desc="kept subtags, all three filled, second maximize is None; arbitrary (und, script?, region?)"),
         J("c07_laws_lang", tier="t", unwind=6, uw=LK_UW, desc="same for arbitrary non-empty language (touches the 7143-row table)", weight=5, mem_gb=40, cbmc=["--no-pointer-check"], trace=False, timeout_t=5400),
+        J("c07_full_is_fixpoint", tier="t", unwind=6, uw=LK_UW, desc="language+script+region all present => maximize is None / false / unchanged (closes idempotence); the language's emptiness is a niche value of its first byte, so CBMC also explores the table branch", weight=5, mem_gb=40, cbmc=["--no-pointer-check"], trace=False, timeout_t=5400),
         J("c07_wrapper_und", unwind=6, uw=dict(VAL_UW, **LK_UW), desc="LanguageIdentifier::maximize: variants untouched, bool<=>changed, false=>unchanged, idempotent; und language, <=2 variants", weight=3, mem_gb=12),
     ],
     bounds="every valid (script?, region?) with und language (quick); every valid (language, script?, region?) (thorough); wrapper with 0..2 variants",
@@ -188,9 +191,79 @@ PROPS["C14"] = P(
         J("c14_rows_direct", cfg="nolikely", unwind=6, uw=LK_UW, desc="same rows, built without the likelysubtags feature"),
         J("c14_rows_likely", tier="t", unwind=6, uw=LK_UW, desc="script-less rows of RTL-listed languages, likelysubtags on (7143-row table)", weight=5, mem_gb=40, cbmc=["--no-pointer-check"], trace=False, timeout_t=5400),
         J("c14_rows_likely", cfg="nolikely", unwind=6, uw=LK_UW, desc="same rows without likelysubtags: may differ only for multi-direction languages"),
-        J("c14_script_decides", unwind=6, uw=dict(VAL_UW, **LK_UW), desc="arbitrary identifier with <=1 variant: listed script decides; unlisted script + non-RTL language => LTR; variants irrelevant", weight=2),
+        J("c14_script_decides", tier="t", unwind=6, uw=dict(VAL_UW, **LK_UW), desc="arbitrary identifier with <=1 variant: listed script decides; unlisted script + non-RTL language => LTR; variants irrelevant (likelysubtags on: the RTL-language branch drags in the 7143-row table)", weight=5, mem_gb=40, cbmc=["--no-pointer-check"], trace=False, timeout_t=5400),
         J("c14_script_decides", cfg="nolikely", unwind=6, uw=dict(VAL_UW, **LK_UW), desc="same, without likelysubtags", weight=2),
     ],
     bounds="all 709 non-root CLDR locale directories by symbolic row index in both feature configurations; arbitrary valid (language, script?, region?, <=1 variant) for the script/language clauses",
     outside="arbitrary identifiers of RTL-listed languages without a listed script (their answer is defined only through the rows); quick tier skips the rows that reach the 7143-row table with likelysubtags on",
+)
+
+EXT_STUBS = ["std::vec::Vec::push", "<[tinystr::TinyAsciiStr<8>]>::sort_unstable"]
+def ext_uw(k):
+    d = dict(tok_uw(k))
+    d.update({r"try_from_iter": k + 2, r"btree": 3, r"dedup": k + 2, r"is_type|is_attribute|is_language_subtag|Iter<'_, u8>": 10})
+    return d
+PROPS["C01"] = P(
+    jobs=[
+        J("c01_extmap_dispatch_1", unwind=6, uw=ext_uw(1), stubs=EXT_STUBS, desc="ExtensionsMap::try_from_iter on [T9]"),
+        J("c01_extmap_dispatch_2", unwind=6, uw=ext_uw(2), stubs=EXT_STUBS, desc="ExtensionsMap::try_from_iter on [T9,T9]", weight=3),
+        J("c01_ulist_1", unwind=6, uw=ext_uw(1), stubs=EXT_STUBS, desc="UnicodeExtensionList::try_from_iter on [T9]"),
+        J("c01_ulist_2", unwind=6, uw=ext_uw(2), stubs=EXT_STUBS, desc="on [T9,T9]", weight=2),
+        J("c01_tlist_1", unwind=6, uw=ext_uw(1), stubs=EXT_STUBS, desc="TransformExtensionList::try_from_iter on [T9]"),
+        J("c01_tlist_2", unwind=6, uw=ext_uw(2), stubs=EXT_STUBS, desc="on [T9,T9]", weight=2),
+        J("c01_plist_2", unwind=6, uw=ext_uw(2), stubs=EXT_STUBS, desc="PrivateExtensionList::try_from_iter on [T9,T9]"),
+        J("c01_plist_3", unwind=6, uw=ext_uw(3), stubs=EXT_STUBS, desc="on [T9,T9,T9]", weight=2),
+    ],
+    bounds="", outside="",
+)
+
+TLIST_STUBS = EXT_STUBS + ["<[unic_langid_impl::subtags::Variant]>::sort_unstable", "std::vec::Vec::into_boxed_slice"]
+def xuw(k):
+    d = ext_uw(k)
+    d.update({r"xspec::|iter_is|ulist_is|tlist_is|plist_is|count_t?keys|insert_sorted": k + 4, r"spec::infos|toks_len|toks9|h::slices": k + 2})
+    return d
+NOPTR = ["--no-pointer-check", "--no-bounds-check"]
+def uf(name, lens, tier="q", **kw):
+    kw.setdefault("mem_gb", 12)
+    kw.setdefault("cbmc", NOPTR)
+    return J(name, tier=tier, unwind=6, uw=xuw(len(lens)), stubs=EXT_STUBS, desc="-u- body, subtag lengths %s, all contents symbolic" % lens, **kw)
+def tf(name, lens, tier="q", **kw):
+    kw.setdefault("mem_gb", 12)
+    kw.setdefault("cbmc", NOPTR)
+    return J(name, tier=tier, unwind=6, uw=xuw(len(lens)), stubs=TLIST_STUBS, desc="-t- body, subtag lengths %s, all contents symbolic" % lens, **kw)
+PROPS["C03"] = P(
+    jobs=[
+        J("c03_dispatch_1", unwind=6, uw=xuw(1), stubs=EXT_STUBS, desc="ExtensionsMap::try_from_iter on one fully symbolic subtag vs reference dispatcher"),
+        uf("c03_u_3", [3]), uf("c03_u_2", [2]), uf("c03_u_2_3", [2, 3]), uf("c03_u_3_3", [3, 3]), uf("c03_u_8_2_4", [8, 2, 4]),
+        uf("c03_u_2_4_1", [2, 4, 1]), uf("c03_u_2_3_9", [2, 3, 9]), uf("c03_u_3_0", [3, 0]), uf("c03_u_1", [1]), uf("c03_u_9", [9]),
+        uf("c03_u_2_2", [2, 2], tier="t"), uf("c03_u_2_3_2_3", [2, 3, 2, 3], tier="t"),
+        tf("c03_t_2", [2]), tf("c03_t_2_3", [2, 3]), tf("c03_t_3", [3]), tf("c03_t_2_3_1", [2, 3, 1]), tf("c03_t_2_2_3", [2, 2, 3]),
+        tf("c03_t_2_5_2", [2, 5, 2], tier="t"), tf("c03_t_2_3_2_3", [2, 3, 2, 3], tier="t"),
+        J("c03_x_1", unwind=6, uw=xuw(1), stubs=EXT_STUBS, desc="-x- body, 1 x T9"),
+        J("c03_x_2", unwind=6, uw=xuw(2), stubs=EXT_STUBS, desc="-x- body, 2 x T9"),
+        J("c03_x_3", unwind=6, uw=xuw(3), stubs=EXT_STUBS, desc="-x- body, 3 x T9"),
+    ],
+    bounds="", outside="",
+)
+
+STR_STUBS = ["std::string::String::push_str", "std::string::String::push"]
+FMT2 = {r"stubs::push_str|String::push_str": 10, r"core::fmt|fmt::Write|String|str::|Display|write_str|write_char|push_str|extend": 10, r"memcpy|memmove": 24, r"bytes_are|is_canonical_langid": 50,
+        r"write_langid|write_txt": 10, r"Tok::lit": 10, r"c04::|c05::": 8}
+PROPS["C04"] = P(
+    jobs=[
+        J("c04_subtag_display", unwind=6, uw=dict(VAL_UW, **FMT2), desc="Display/as_str of every valid subtag of the four types == reference text"),
+        J("c04_langid_display_v0", unwind=6, uw=dict(VAL_UW, **FMT2), desc="to_string of any langid without variants == reference serialiser; strict recogniser accepts", weight=2),
+        J("c04_langid_display_v2", unwind=6, uw=dict(VAL_UW, **FMT2), desc="same with 0..2 variants", weight=3, mem_gb=12),
+        J("c04_canonicalize_tokens_2", unwind=6, uw=dict(tok_uw(2), **FMT2), stubs=PARSER_STUBS, desc="token-level canonicalize on 2 x T9: string == reference canonicalisation, not longer than input", weight=3, mem_gb=12),
+        J("c04_canonicalize_tokens_3", tier="t", unwind=6, uw=dict(tok_uw(3), **FMT2), stubs=PARSER_STUBS, desc="3 x T9", weight=4, mem_gb=16),
+    ],
+    bounds="", outside="",
+)
+PROPS["C05"] = P(
+    jobs=[
+        J("c05_subtag_roundtrip", unwind=6, uw=dict(VAL_UW, **FMT2), desc="from_str(to_string(x)) == x for every valid subtag of the four types", weight=2),
+        J("c05_langid_reparse_tokens", unwind=6, uw=dict(tok_uw(5), **FMT2, **VAL_UW), stubs=PARSER_STUBS, desc="any langid with <=2 variants: its own printed subtags re-parse to an equal value", weight=3, mem_gb=12),
+        J("c05_canonicalize_idempotent_2", unwind=6, uw=dict(tok_uw(2), **FMT2), stubs=PARSER_STUBS, desc="2 x T9: canonical form re-parses to the same value", weight=3, mem_gb=12),
+    ],
+    bounds="", outside="",
 )
